@@ -50,6 +50,10 @@ class Undecided(Exception):
     pass
 
 
+# unit file -> what was dropped when the unit had to be extracted with --lenient
+LENIENT_NOTES = {}
+
+
 # ------------------------------------------------------------------------------------------------
 # one unit: extract + verify
 # ------------------------------------------------------------------------------------------------
@@ -68,6 +72,16 @@ def extract_unit(root, unit, workdir, canary=None, flags_off=False):
     if flags_off:
         cmd += ["--flags-off"]
     rc, so, se, dt = sh(cmd)
+    LENIENT_NOTES.pop(out, None)
+    if rc != 0 and "lost anchor" in (se or so):
+        # an overlay clause (proof hint, invariant, closure annotation) no longer finds its place: re-extract with those clauses
+        # dropped.  The contracts themselves are kept, so if the unit still verifies the same contracts are proved (exit 0);
+        # if it does not, verify_unit reports the lost anchor as UNDECIDED - never as a violation.
+        first = (se or so).strip()
+        rc2, so2, se2, dt2 = sh(cmd + ["--lenient"])
+        if rc2 == 0:
+            LENIENT_NOTES[out] = {"lost": first, "dropped": [l[len("MTX-LENIENT: "):] for l in se2.splitlines() if l.startswith("MTX-LENIENT: ")]}
+            return out, mapf
     if rc != 0:
         raise Undecided("extraction of unit %s failed (rc=%d): %s" % (unit, rc, (se or so).strip()))
     return out, mapf
@@ -266,6 +280,15 @@ def verify_unit(root, unit, workdir, rlimit, seed, canary=None, threads=8, flags
             r["status"] = "ok"
             r["errors"] = 0
             r["verified"] = r["verified"] + len(flaky)
+    ln = LENIENT_NOTES.get(path if not lemma_canary else None)
+    if ln is None:
+        for k in list(LENIENT_NOTES):
+            if os.path.basename(k)[:-3] in os.path.basename(path):
+                ln = LENIENT_NOTES[k]
+    if ln is not None:
+        r["lenient"] = ln
+        if canary is None and r["status"] != "ok":
+            raise Undecided("extraction of unit %s failed (rc=2): %s (re-extracted without the orphaned overlay clauses, the unit does not verify: undecided)" % (unit, ln["lost"]))
     r.update({"unit": unit, "path": path, "map": mapf, "wall_s": dt, "cmd": cmd, "canary": canary})
     return r
 
@@ -715,6 +738,7 @@ def check_property(root, pid, tier, seed):
             "assumption_lines": {k: len(v) for k, v in assumptions_found.items()},
             "not_decided": P.get("not_decided", []),
             "undecided": undecided,
+            "overlay_clauses_dropped_by_lenient_extraction": [{"unit_file": os.path.basename(k), **v} for k, v in sorted(LENIENT_NOTES.items())],
             "failed_obligations_of_other_properties_in_shared_units": out_of_scope,
             "known_findings_fixed": [f for f in fixed_findings if ("property=%s " % pid) in f],
             "repo": REPO,
